@@ -102,7 +102,16 @@ def make_objects(M, desc, param_override=None, node_names=None):
     param_override: {(element_id, attr): value} replaces a numeric parameter (used to
     make parameters symbolic).
     """
-    po = param_override or {}
+    po = dict(param_override or {})
+    if desc.get("whole_numbers"):
+        # whole-number parameters are written without a decimal point: Python ints
+        for l in desc["links"]:
+            for a in ("lam", "L", "rho_max", "rho_crit", "v_free", "a", "beta"):
+                if (l["id"], a) not in po and float(l[a]).is_integer():
+                    po[(l["id"], a)] = int(l[a])
+        for o in desc["origins"]:
+            if o.get("C") is not None and (o["id"], "C") not in po and float(o["C"]).is_integer():
+                po[(o["id"], "C")] = int(o["C"])
     nodes = {
         n: callform(M.Node, ORDER["named"], {"name": (node_names or {}).get(n, n)}) for n in desc["nodes"]
     }
@@ -117,8 +126,13 @@ def make_objects(M, desc, param_override=None, node_names=None):
                 # the signs as a list / tuple the caller keeps (and goes on editing for the next link)
                 signs = list(l["vsl"])
                 r_.shuffle(signs)
-                if r_.random() < 0.3:
+                k_ = r_.random()
+                if k_ < 0.3:
                     signs = tuple(signs)
+                elif k_ < 0.5:
+                    signs = (int(t) for t in ",".join(map(str, signs)).split(",") if t != "")  # parsed from a config string
+                elif k_ < 0.6:
+                    signs = iter(signs)
             links[l["id"]] = callform(M.LinkWithVsl, ORDER["Link"], vals, 8,
                                       extra={"segments_with_vsl": signs, "alpha": g("alpha")})
             if isinstance(signs, list):
@@ -143,6 +157,10 @@ def make_objects(M, desc, param_override=None, node_names=None):
             origins[o["id"]] = UK.BoundaryOrigin(flow=o.get("user_q"), speed=o.get("user_v"), name=o["name"])
         elif o["kind"] == "ideal":
             origins[o["id"]] = callform(M.Origin, ORDER["named"], {"name": o["name"]})
+        elif o["kind"] == "main" and o.get("user_cap_flow") is not None:
+            from vf import userkinds as UK
+
+            origins[o["id"]] = UK.TollPlaza(name=o["name"], cap=o["user_cap_flow"])
         elif o["kind"] == "main":
             origins[o["id"]] = callform(M.MainstreamOrigin, ORDER["named"], {"name": o["name"]})
         elif o["kind"] in ("ramp", "simple"):
@@ -211,7 +229,12 @@ def build(M, desc, ops=None, param_override=None, node_names=None, net_name=None
         for k in table:
             if reuse and k in reuse:
                 table[k] = reuse[k]
-    net = callform(M.Network, ORDER["named"], {"name": net_name})
+    net_cls = M.Network
+    if FORMS["rng"] is not None and FORMS["rng"].random() < 0.15:
+        from vf import userkinds as UK
+
+        net_cls = UK.Motorway  # a user-defined Network subclass
+    net = callform(net_cls, ORDER["named"], {"name": net_name})
     linkd = {l["id"]: l for l in desc["links"]}
     orgd = {o["id"]: o for o in desc["origins"]}
     dstd = {d["id"]: d for d in desc["dests"]}
